@@ -2,21 +2,24 @@
    strings (atom / quoted / literal), of the letter case of keywords and of optional forms.
    Property theorems only; every proof is `exact <lemma>` and is followed by Print Assumptions.
 
-   FULL STATEMENT (the goal):  forall t c bs, EncLine t c bs -> parse (bs ++ rest) = Ok t c rest   for EVERY command c.
-   PROVED (C10_roundtrip): exactly that statement, where the relation EncLine / EncCmd (Model/ImapPrinter.v) currently has
-   constructors for: CAPABILITY IDLE NOOP LOGOUT CHECK CLOSE EXPUNGE UNSELECT STARTTLS, SELECT EXAMINE CREATE DELETE
-   SUBSCRIBE UNSUBSCRIBE, RENAME, LIST, LSUB, LOGIN, STATUS, COPY, MOVE, STORE, UID COPY, UID MOVE, UID STORE, UID EXPUNGE,
-   DONE — with all their non-terminals: tag, astring/string/atom in the three encodings, mailbox (INBOX folding),
-   list-mailbox, number / nz-number (leading zeros), sequence sets, flags and flag lists, status attributes.
-   NOT YET COVERED BY THE THEOREM (only by the correspondence harness, which covers all commands): FETCH, SEARCH, APPEND,
-   ID and their non-terminals (sections, partials, search-key trees, dates, date-times).
+   C10_roundtrip:  forall t c bs, EncLine t c bs -> parse (bs ++ rest) = Ok t c rest.
+   The relation EncLine / EncCmd (Model/ImapPrinter.v: all encodings of a command line, defined with the RFC 3501
+   character classes in byte terms) has constructors for ALL commands the server supports:
+     CAPABILITY IDLE NOOP LOGOUT CHECK CLOSE EXPUNGE UNSELECT STARTTLS, SELECT EXAMINE CREATE DELETE SUBSCRIBE UNSUBSCRIBE,
+     RENAME, LIST, LSUB, LOGIN, STATUS, APPEND (flag list, date-time, literal), COPY, MOVE, STORE, FETCH (macros, all
+     attributes, BODY[section]<partial> with parts, HEADER.FIELDS[.NOT], MIME), SEARCH (CHARSET, every key, NOT / OR /
+     parenthesised lists to any depth, dates), the UID forms of COPY MOVE STORE FETCH SEARCH, UID EXPUNGE, ID (NIL / list
+     with NIL values), DONE.
+   Limits of the statement (stated in the relations): numbers below 2^63 (ParseNumber rejects more), sequence numbers below
+   2^32, literals shorter than the 30 MiB cap, fixed-width date/time fields as in RFC 3501 (2DIGIT / 4DIGIT, 1*2DIGIT for
+   the search date-day), ID keys are not required to be distinct in the model (the Go AST is a map: harness).
    Independence of the chunking of the byte stream cannot be expressed in the model (it reads a byte list): harness only.
-
-   The encodings are defined with the RFC 3501 character classes in byte terms; that the generated token tables of the
-   implementation accept those classes is part of what is proved (C10_rfc_classes_accepted). *)
+   That the generated token tables of the implementation accept the RFC classes is part of what is proved
+   (C10_rfc_classes_accepted). *)
 From Coq Require Import List NArith Bool String.
 From Gluon Require Import Gen.FactsTokens Model.ImapTokens Model.ImapGrammar Model.ImapPrinter
-  Proofs.ImapTokenFacts Proofs.ImapRoundTrip Proofs.ImapRoundTripCmd.
+  Proofs.ImapTokenFacts Proofs.ImapRoundTrip Proofs.ImapRoundTripFetch Proofs.ImapRoundTripSearch
+  Proofs.ImapRoundTripCmd.
 Import ListNotations.
 Open Scope N_scope.
 
@@ -74,6 +77,21 @@ Theorem C10_flag_list_roundtrip : forall l bs rest fuel, EncFlagList l bs -> (Li
 Proof. exact flag_list_rt. Qed.
 Print Assumptions C10_flag_list_roundtrip.
 
+(* the recursive non-terminals *)
+Theorem C10_search_key_roundtrip : forall k e fuel rest, EncSKey k e -> (List.length e < fuel)%nat -> F_key rest ->
+  p_search_key fuel fuel (e ++ rest) = ROk k rest.
+Proof. exact key_rt. Qed.
+Print Assumptions C10_search_key_roundtrip.
+
+Theorem C10_fetch_att_roundtrip : forall a bs rest fuel, EncFetchAtt a bs -> F_att rest -> (List.length bs < fuel)%nat ->
+  p_fetch_att fuel (bs ++ rest) = ROk a rest.
+Proof. exact fetch_att_rt. Qed.
+Print Assumptions C10_fetch_att_roundtrip.
+
+Theorem C10_date_time_roundtrip : forall dt bs rest, EncDateTime dt bs -> p_date_time (bs ++ rest) = ROk dt rest.
+Proof. exact date_time_rt. Qed.
+Print Assumptions C10_date_time_roundtrip.
+
 (* the keywords the model dispatches on are exactly the keys of the Go builder maps (read from the source) *)
 Theorem C10_command_keywords_match :
   map s2b model_command_keywords = command_keywords /\ map s2b model_uid_keywords = uid_command_keywords.
@@ -127,6 +145,50 @@ Proof.
         split; [reflexivity|]. left. split; [reflexivity|]. split; [discriminate|in_bytes].
 Qed.
 
+(* t SEARCH or SEEN (nOt 1:3)CRLF  -- nested key tree *)
+Example C10_search_example :
+  EncLine (s2b "t") (CSel false (SSearch [] [SKOr (SKFlag KSeen) (SKList [SKNot (SKSeqSet [(1, 3)])])]))
+          (s2b "t SEARCH or SEEN (nOt 1:3)" ++ [13; 10]).
+Proof.
+  apply (EL_cmd (s2b "t") _ (s2b "SEARCH" ++ s2b " or SEEN (nOt 1:3)")).
+  - split; [discriminate|]. split; [in_bytes|reflexivity].
+  - apply EC_sel. apply ES_search; [reflexivity|]. left. split; [reflexivity|]. split; [discriminate|].
+    apply (ESKT_cons _ [] (s2b "or SEEN (nOt 1:3)") []); [|apply ESKT_nil].
+    apply (ESK_or (SKFlag KSeen) (SKList [SKNot (SKSeqSet [(1, 3)])]) (s2b "or") (s2b "SEEN") (s2b "(nOt 1:3)")); [reflexivity| |].
+    + apply ESK_flag. reflexivity.
+    + apply (ESK_list (SKNot (SKSeqSet [(1, 3)])) [] (s2b "nOt 1:3") []); [|apply ESKT_nil].
+      apply (ESK_not (SKSeqSet [(1, 3)]) (s2b "nOt") (s2b "1:3")); [reflexivity|]. apply ESK_seq.
+      exists (s2b "1:3"), []. split; [reflexivity|]. split; [|apply EST_nil].
+      right. exists [49], [51]. split; [reflexivity|].
+      split; right; (split; [discriminate|]); (split; [discriminate|]); (split; [discriminate|]); (split; [in_bytes|]);
+        (split; [reflexivity|discriminate]).
+Qed.
+
+(* t fetch 7 (UID body.peek[1.TEXT]<0.5>)CRLF *)
+Example C10_fetch_example :
+  EncLine (s2b "t") (CSel false (SFetch [(7, 7)] [FUid; FBodySection true (SecPart [1] (Some MTText)) (Some (0, 5))]))
+          (s2b "t fetch 7 (UID body.peek[1.TEXT]<0.5>)" ++ [13; 10]).
+Proof.
+  apply (EL_cmd (s2b "t") _ (s2b "fetch" ++ 32 :: s2b "7" ++ 32 :: s2b "(UID body.peek[1.TEXT]<0.5>)")).
+  - split; [discriminate|]. split; [in_bytes|reflexivity].
+  - apply EC_sel. apply ES_fetch; [reflexivity| |].
+    + exists [55], []. split; [reflexivity|]. split; [|apply EST_nil]. left. split; [reflexivity|].
+      right. split; [discriminate|]. split; [discriminate|]. split; [discriminate|]. split; [in_bytes|]. split; [reflexivity|discriminate].
+    + right. right. right. right. exists (s2b "UID body.peek[1.TEXT]<0.5>"). split; [reflexivity|].
+      exists (s2b "UID"), (s2b " body.peek[1.TEXT]<0.5>"). split; [reflexivity|]. split; [apply EFA_uid; reflexivity|].
+      apply (EST_cons EncFetchAtt 32 _ (s2b "body.peek[1.TEXT]<0.5>") [] []); [|apply EST_nil].
+      apply (EFA_section true (SecPart [1] (Some MTText)) (Some (0, 5)) (s2b "body") (s2b ".peek") (s2b "1.TEXT") (s2b "<0.5>")).
+      * reflexivity.
+      * exists (s2b "peek"). split; reflexivity.
+      * exists [49], (s2b ".TEXT"). split; [reflexivity|]. split.
+        -- exists [49], []. split; [reflexivity|]. split; [|apply EST_nil].
+           split; [|discriminate]. split; [discriminate|]. split; [in_bytes|]. split; [reflexivity|discriminate].
+        -- exists (s2b "TEXT"). split; [reflexivity|]. apply EMT_text. reflexivity.
+      * exists [48], [53]. split; [reflexivity|]. split.
+        -- split; [discriminate|]. split; [in_bytes|]. split; [reflexivity|discriminate].
+        -- split; [|discriminate]. split; [discriminate|]. split; [in_bytes|]. split; [reflexivity|discriminate].
+Qed.
+
 (* the theorem applied to the examples, and the same by evaluation of the model *)
 Example C10_examples_parse :
   parse_command 100 ((s2b "a1 LoGiN {4}" ++ [13; 10] ++ s2b "user " ++ [34; 112; 97; 92; 34; 115; 115; 34; 13; 10]) ++ s2b "next")
@@ -137,4 +199,14 @@ Proof.
   split.
   - apply (C10_roundtrip _ _ _ C10_login_example). vm_compute. repeat constructor.
   - apply (C10_roundtrip _ _ _ C10_uid_store_example). vm_compute. repeat constructor.
+Qed.
+Example C10_examples_parse_2 :
+  parse_command 100 ((s2b "t SEARCH or SEEN (nOt 1:3)" ++ [13; 10]) ++ [])
+  = POk (s2b "t") (CSel false (SSearch [] [SKOr (SKFlag KSeen) (SKList [SKNot (SKSeqSet [(1, 3)])])])) []
+  /\ parse_command 100 ((s2b "t fetch 7 (UID body.peek[1.TEXT]<0.5>)" ++ [13; 10]) ++ [])
+  = POk (s2b "t") (CSel false (SFetch [(7, 7)] [FUid; FBodySection true (SecPart [1] (Some MTText)) (Some (0, 5))])) [].
+Proof.
+  split.
+  - apply (C10_roundtrip _ _ _ C10_search_example). vm_compute. repeat constructor.
+  - apply (C10_roundtrip _ _ _ C10_fetch_example). vm_compute. repeat constructor.
 Qed.
